@@ -174,3 +174,18 @@ reg('C06',
     level_text='Exhaustive over the stated messages and histories: output bytes, number and position of flushes and number of errors are compared with the model for every one.',
     level_note='result item texts are fixed literals (their correctness is the subject of C07/C14/C16/C17)',
     design_ref='DESIGN.md section 3 / C06')
+
+reg('C09',
+    title='messages and units are isolated: nothing but status and errors carries over',
+    src='c09_isolation.c',
+    configs={'quick': ['def'], 'thorough': ['def', 'noinfo']},
+    deadline={'quick': 100, 'thorough': 1500},
+    level=MC,
+    technique='bounded-exhaustive differential enumeration: every ordered pair of messages executed on the real parser (ASan), trace of B after A compared with B on a fresh context',
+    rule={'quick': 'message set M = 43 single units + all 1849 ordered unit pairs (compound paths, common commands, every parameter kind incl. malformed lists and dangling comma, queries that succeed / fail midway / leave a block unfinished / write block data without header, invalid and incomplete units), each NL-terminated; ordered pairs (A, B): all |M|^2 = 3.6 M; compared: handler invocations with effective header and decoded parameters, output bytes, flushes, error callbacks, SCPI_Input result; non-trivial = pair whose A executed a handler or raised an error',
+          'thorough': 'additionally every two-message history (A1, A2 single units) x every B in M (2.9 M), also in the no-info build'},
+    assumptions=['B never queries status registers or the error queue (excepted by the statement); error queue capacity 64 so overflow cannot alias the comparison',
+                 'A is always a terminated message (the harness asserts that nothing stays pending after A)'],
+    level_text='Exhaustive over the stated message pairs: any difference between B-after-A and B-alone is reported with both traces.',
+    level_note='differential oracle: no expected values are written by hand',
+    design_ref='DESIGN.md section 3 / C09')
